@@ -171,7 +171,7 @@ impl Monitor for C02 {
             let accepts: Vec<Accept> = spec.cols.iter().enumerate().map(|(ci, c)| if matches!(c.src, Src::Json(_)) { expect_json_column(c, doc.as_ref()) } else { expect_regex_column(&spec, ci, &ctx) }).collect();
             for (ci, (c, a)) in spec.cols.iter().zip(accepts.iter()).enumerate() {
                 if !matches!(c.src, Src::Json(_)) { continue; }
-                let conv = if c.modifier == Modifier::Convert { "+convert" } else { "" };
+                let conv = if c.convert() { "+convert" } else { "" };
                 obs.hit(&format!("json/{}{}/{}", c.ty.tag(), conv, a.situation));
                 let nontrivial = a.situation == "path-present" || a.situation == "duplicate-keys" || (a.situation == "path-absent" && doc.as_ref().map(|d| { if let Src::Json(steps) = &c.src { steps.len() > 1 && !resolve(d, &steps[..1]).is_empty() } else { false } }).unwrap_or(false));
                 if nontrivial { obs.sub(crate::rng::mix(&[table_hash, ci as u64, crate::rng::fnv1a(line.as_bytes())])); }
